@@ -85,14 +85,17 @@ Proof.
 Qed.
 
 (* ---------- the tables ---------- *)
-Record core_ok (s : lstate) : Prop := {
+(* P = what is known about every literal that labels a leaf (non-zero, within the feature range);
+   literals_nx is exactly the set of literal leaves: one leaf per literal *)
+Record core_ok (P : Z -> Prop) (s : lstate) : Prop := {
   co_inv : Inv (ls_g s);
   co_lits : forall l z, lookupZ (ls_lits s) l = Some z -> sg_label (ls_g s) z = Some (GLit l);
-  co_pos : forall z l, sg_label (ls_g s) z = Some (GLit l) -> l <> 0%Z
+  co_pos : forall z l, sg_label (ls_g s) z = Some (GLit l) -> P l;
+  co_inj : forall z l, sg_label (ls_g s) z = Some (GLit l) -> lookupZ (ls_lits s) l = Some z
 }.
 Definition tris_ok (s : lstate) : Prop :=
   forall f o, lookup_nat (ls_tri s) f = Some o -> tri_node (ls_g s) f o.
-Definition tables_ok (s : lstate) : Prop := core_ok s /\ tris_ok s.
+Definition tables_ok (P : Z -> Prop) (s : lstate) : Prop := core_ok P s /\ tris_ok s.
 
 Lemma lookupZ_cons m k v k' : lookupZ ((k, v) :: m) k' = if Z.eqb k k' then Some v else lookupZ m k'.
 Proof. reflexivity. Qed.
@@ -119,12 +122,14 @@ Proof. lia. Qed.
 
 Section Tables.
 Variable rc : bool.
+Context {P : Z -> Prop}.
+Definition PF (f : nat) : Prop := P (Z.of_nat f) /\ P (- Z.of_nat f)%Z.
 
-Lemma get_lit_core l s z s' D : core_ok s -> l <> 0%Z -> get_lit rc l s = (z, s') ->
-  core_ok s' /\ ext (ls_g s) (ls_g s') D /\ sg_label (ls_g s') z = Some (GLit l) /\
+Lemma get_lit_core l s z s' D : core_ok P s -> P l -> get_lit rc l s = (z, s') ->
+  core_ok P s' /\ ext (ls_g s) (ls_g s') D /\ sg_label (ls_g s') z = Some (GLit l) /\
   ls_tri s' = ls_tri s.
 Proof.
-  intros [HI Hl Hp] Hl0 H. unfold get_lit in H.
+  intros [HI Hl Hp Hj] Hl0 H. unfold get_lit in H.
   destruct (lookupZ (ls_lits s) l) as [x|] eqn:E.
   - injection H as <- <-. split; [now constructor|]. split; [apply ext_refl|]. split; [now apply Hl|reflexivity].
   - destruct (add_node rc (GLit l) (ls_g s)) as [x g'] eqn:Ha. injection H as <- <-. cbn [ls_g ls_tri ls_lits].
@@ -138,13 +143,17 @@ Proof.
     + intros z' l' Hz. destruct (Nat.eq_dec z' x) as [->|Hne].
       * rewrite (add_node_label_new rc _ _ _ _ HI Ha) in Hz. now injection Hz as <-.
       * rewrite (add_node_label_old rc _ _ _ _ Ha z' Hne) in Hz. now apply (Hp z').
+    + intros z' l' Hz. rewrite lookupZ_cons. destruct (Nat.eq_dec z' x) as [->|Hne].
+      * rewrite (add_node_label_new rc _ _ _ _ HI Ha) in Hz. injection Hz as <-. now rewrite Z.eqb_refl.
+      * rewrite (add_node_label_old rc _ _ _ _ Ha z' Hne) in Hz. pose proof (Hj z' l' Hz) as Hz'.
+        destruct (Z.eqb_spec l l') as [->|_]; [congruence|exact Hz'].
 Qed.
 
-Lemma ls_add_edge_core a b s s' D : core_ok s -> In a D -> ls_add_edge a b s = Some s' ->
-  core_ok s' /\ ext (ls_g s) (ls_g s') D /\ ls_tri s' = ls_tri s /\ ls_lits s' = ls_lits s /\
+Lemma ls_add_edge_core a b s s' D : core_ok P s -> In a D -> ls_add_edge a b s = Some s' ->
+  core_ok P s' /\ ext (ls_g s) (ls_g s') D /\ ls_tri s' = ls_tri s /\ ls_lits s' = ls_lits s /\
   sg_out (ls_g s') a = b :: sg_out (ls_g s) a.
 Proof.
-  intros [HI Hl Hp] Ha H. unfold ls_add_edge in H.
+  intros [HI Hl Hp Hj] Ha H. unfold ls_add_edge in H.
   destruct (add_edge a b (ls_g s)) as [g'|] eqn:E; [|discriminate]. injection H as <-.
   cbn [with_g ls_g ls_tri ls_lits].
   split; [|split; [now apply (add_edge_ext a b _ _ D E)|split; [reflexivity|split; [reflexivity|apply (add_edge_out_same a b _ _ E)]]]].
@@ -152,6 +161,7 @@ Proof.
   - now apply (add_edge_Inv a b _ _ E).
   - intros l z Hz. rewrite (add_edge_label a b _ _ E). now apply Hl.
   - intros z l Hz. rewrite (add_edge_label a b _ _ E) in Hz. now apply (Hp z).
+  - intros z l Hz. rewrite (add_edge_label a b _ _ E) in Hz. now apply (Hj z).
 Qed.
 
 (* ---------- add_literal_node ---------- *)
@@ -170,14 +180,14 @@ Proof.
   destruct (sg_alive (ls_g s1) o) eqn:E; [|reflexivity]. now rewrite (ext_alive _ _ _ _ He E) in H2.
 Qed.
 
-Lemma add_literal_node_spec f at_ s s' : tables_ok s -> 1 <= f ->
+Lemma add_literal_node_spec f at_ s s' : tables_ok P s -> 1 <= f -> PF f ->
   sg_label (ls_g s) at_ = Some GAnd ->
   add_literal_node rc f at_ s = Some s' ->
-  tables_ok s' /\ ext (ls_g s) (ls_g s') [at_] /\ tri_origin s s' /\
+  tables_ok P s' /\ ext (ls_g s) (ls_g s') [at_] /\ tri_origin s s' /\
   exists o, sg_out (ls_g s') at_ = o :: sg_out (ls_g s) at_ /\ tri_node (ls_g s') f o /\
             (lookup_nat (ls_tri s) f = Some o \/ sg_alive (ls_g s) o = false).
 Proof.
-  intros [Hc Ht] Hf Hat H. unfold add_literal_node in H.
+  intros [Hc Ht] Hf [Hfp Hfn] Hat H. unfold add_literal_node in H.
   assert (Haa : sg_alive (ls_g s) at_ = true) by (unfold sg_alive; now rewrite Hat).
   destruct (lookup_nat (ls_tri s) f) as [o|] eqn:E.
   - (* the triangle exists already *)
@@ -190,21 +200,22 @@ Proof.
     apply Ht'. now rewrite Htri.
   - (* a new triangle *)
     destruct (add_node rc GOr (ls_g s)) as [o g1] eqn:Ha.
-    destruct Hc as [HI Hl Hp].
+    destruct Hc as [HI Hl Hp Hj].
     pose proof (add_node_label_new rc _ _ _ _ HI Ha) as Hlo1.
     pose proof (add_node_no_out rc _ _ _ _ HI Ha) as Hoo1.
     pose proof (add_node_fresh rc _ _ _ _ HI Ha) as Hfresh.
     assert (Hod : sg_alive (ls_g s) o = false) by (unfold sg_alive; now rewrite Hfresh).
     assert (Hne : at_ <> o) by (intros ->; congruence).
     set (s1 := mkLS g1 (ls_lits s) ((f, o) :: ls_tri s)) in H.
-    assert (Hc1 : core_ok s1).
+    assert (Hc1 : core_ok P s1).
     { constructor; cbn [s1 ls_g ls_lits ls_tri].
       - apply (add_node_Inv rc _ _ _ _ HI Ha).
       - intros l z Hz. apply (ext_label_some _ _ [] _ _ (add_node_ext rc _ _ _ _ [] HI Ha)). now apply Hl.
       - intros z l Hz. destruct (Nat.eq_dec z o) as [->|Hzo]; [congruence|].
-        rewrite (add_node_label_old rc _ _ _ _ Ha z Hzo) in Hz. now apply (Hp z). }
+        rewrite (add_node_label_old rc _ _ _ _ Ha z Hzo) in Hz. now apply (Hp z).
+      - intros z l Hz. destruct (Nat.eq_dec z o) as [->|Hzo]; [congruence|].
+        rewrite (add_node_label_old rc _ _ _ _ Ha z Hzo) in Hz. now apply (Hj z). }
     pose proof (add_node_ext rc _ _ _ _ [o; at_] HI Ha) as He01. change g1 with (ls_g s1) in He01, Hlo1, Hoo1.
-    destruct (of_nat_neq0 f Hf) as [Hfp Hfn].
     destruct (get_lit rc (Z.of_nat f) s1) as [pos s2] eqn:Hpos.
     destruct (get_lit_core (Z.of_nat f) s1 pos s2 [o; at_] Hc1 Hfp Hpos) as [Hc2 [He12 [Hlp2 Htri2]]].
     destruct (get_lit rc (- Z.of_nat f)%Z s2) as [neg s3] eqn:Hneg.
@@ -265,19 +276,19 @@ Definition tri_child (s : lstate) (g' : sgraph) (o : nat) : Prop :=
   (exists f, tri_node g' f o) /\
   ((exists f, lookup_nat (ls_tri s) f = Some o) \/ sg_alive (ls_g s) o = false).
 
-Lemma add_literal_nodes_spec at_ : forall fs s s', tables_ok s -> Forall (fun f => 1 <= f) fs ->
+Lemma add_literal_nodes_spec at_ : forall fs s s', tables_ok P s -> Forall (fun f => 1 <= f /\ PF f) fs ->
   sg_label (ls_g s) at_ = Some GAnd ->
   add_literal_nodes rc fs at_ s = Some s' ->
-  tables_ok s' /\ ext (ls_g s) (ls_g s') [at_] /\ tri_origin s s' /\
+  tables_ok P s' /\ ext (ls_g s) (ls_g s') [at_] /\ tri_origin s s' /\
   exists tris, sg_out (ls_g s') at_ = tris ++ sg_out (ls_g s) at_ /\
                Forall (tri_child s (ls_g s')) tris.
 Proof.
   induction fs as [|f r IH]; intros s s' Hok Hfs Hat H; cbn [add_literal_nodes] in H.
   - injection H as <-. split; [exact Hok|]. split; [apply ext_refl|]. split; [apply tri_origin_refl|].
     exists []. split; [reflexivity|constructor].
-  - inversion Hfs as [|? ? Hf Hr]; subst.
+  - inversion Hfs as [|? ? [Hf Hpf] Hr]; subst.
     destruct (add_literal_node rc f at_ s) as [s1|] eqn:E1; [|discriminate].
-    destruct (add_literal_node_spec f at_ s s1 Hok Hf Hat E1) as [Hok1 [He1 [Hor1 [o [Ho [Hto Hoo]]]]]].
+    destruct (add_literal_node_spec f at_ s s1 Hok Hf Hpf Hat E1) as [Hok1 [He1 [Hor1 [o [Ho [Hto Hoo]]]]]].
     assert (Hat1 : sg_label (ls_g s1) at_ = Some GAnd) by exact (ext_label_some _ _ _ _ _ He1 Hat).
     destruct (IH s1 s' Hok1 Hr Hat1 H) as [Hok' [He2 [Hor2 [tris [Ht1 Ht2]]]]].
     split; [exact Hok'|]. split; [exact (ext_trans _ _ _ _ He1 He2)|].
